@@ -5,7 +5,7 @@ From Coq Require Import ZArith List Bool Reals Lia Lra.
 From FT.lib Require Import Num Arr ArrLemmas Lower NumArr.
 From FT.gen Require Import Common Interp2d Interp3d Vinterp2d Vinterp3d FteikCommon Fteik2d Fteik3d Ray2d Ray3d.
 From FT.proofs Require Import SSR InterpR Interp3R Sweep2dProofs OperatorsR.
-From FT.proofs Require Operators3R InitSym NonNeg3d Sym3d.
+From FT.proofs Require Operators3R InitSym InitEquiv NonNeg3d Sym3d.
 Import ListNotations.
 Open Scope R_scope.
 
@@ -256,6 +256,108 @@ Theorem C18_init_mirrored_offsets :
        nsub (nofZ 1) (nabs (nsub xsa' (nofZ xsi'))) = nabs (nsub xsa (nofZ xsi)).
 Proof. exact @InitSym.mirrored_dxw_is_dxe. Qed.
 
+(* the x phases (east, west) and the z phases (down, up) of the initialisation commute: each phase writes its own footprint and reads only the source-cell corners, its own footprint, the model and scratch entries it wrote itself *)
+Theorem C18_init_phases_commute :
+  forall (nz nx M : Z) (grad : bool) (dx dz : R) (slow : arr R) (vzero xsa zsa : R) (zsi xsi : Z)
+         (dzu dzd dxw dxe : R),
+       (nx <= M)%Z /\ (nz <= M)%Z ->
+       (0 <= zsi < nz - 1)%Z ->
+       (0 <= xsi < nx - 1)%Z ->
+       forall s : arr R * arr R * arr Z,
+       InitEquiv.good nz nx M grad s ->
+       InitEquiv.agree nz nx grad InitEquiv.Top InitEquiv.Top
+         (InitSym.up_phase dx dz grad slow vzero xsa xsi zsa zsi dxw dxe dzu
+            (InitSym.down_phase dx dz grad nz slow vzero xsa xsi zsa zsi dxw dxe dzd
+               (InitSym.west_phase dx dz grad slow vzero xsa xsi zsa zsi dzu dzd dxw
+                  (InitSym.east_phase dx dz grad nx slow vzero xsa xsi zsa zsi dzu dzd dxe s))))
+         (InitSym.west_phase dx dz grad slow vzero xsa xsi zsa zsi dzu dzd dxw
+            (InitSym.east_phase dx dz grad nx slow vzero xsa xsi zsa zsi dzu dzd dxe
+               (InitSym.up_phase dx dz grad slow vzero xsa xsi zsa zsi dxw dxe dzu
+                  (InitSym.down_phase dx dz grad nz slow vzero xsa xsi zsa zsi dxw dxe dzd s)))).
+Proof. exact @InitEquiv.x_z_commute. Qed.
+
+(* the WHOLE generated source initialisation (every iflag, times, gradient seeds and signs) on the transposed problem is the transpose of the initialisation on the original problem *)
+Theorem C18_init_whole_transpose :
+  forall (nz nx : Z) (dx dz : R) (grad : bool) (iflag : Z) (slow tt tg tg' : arr R) (sg sg' : arr Z)
+         (vzero xsa : R) (xsi : Z) (zsa : R) (zsi : Z),
+       (iflag = 2%Z -> (0 <= zsi < nz - 1)%Z /\ (0 <= xsi < nx - 1)%Z) ->
+       (iflag <> 2%Z -> (0 <= ntrunc zsa < nz)%Z /\ (0 <= ntrunc xsa < nx)%Z) ->
+       wf slow ->
+       shape slow = [(nz - 1)%Z; (nx - 1)%Z] ->
+       InitEquiv.okT nz nx tt ->
+       (grad = true ->
+        InitEquiv.okG nz nx tg /\
+        InitEquiv.okS nz nx sg /\ tg' = InitEquiv.transpose_grad nz nx tg /\ sg' = InitSym.transpose_sgn nz nx sg) ->
+       let r := fteik2d_p2 dx dz grad iflag nx nz slow tt tg sg vzero xsa xsi zsa zsi in
+       let r' :=
+         fteik2d_p2 dz dx grad iflag nz nx (InitSym.transpose (nz - 1) (nx - 1) slow) (InitSym.transpose nz nx tt) tg'
+           sg' vzero zsa zsi xsa xsi in
+       (forall i j : Z, (0 <= i < nz)%Z -> (0 <= j < nx)%Z -> get 0 (fst (fst r')) [j; i] = get 0 (fst (fst r)) [i; j]) /\
+       (grad = true ->
+        forall i j : Z,
+        (0 <= i < nz)%Z ->
+        (0 <= j < nx)%Z ->
+        get 0 (snd (fst r')) [j; i; 1%Z] = get 0 (snd (fst r)) [i; j; 0%Z] /\
+        get 0 (snd (fst r')) [j; i; 0%Z] = get 0 (snd (fst r)) [i; j; 1%Z] /\
+        get 0%Z (snd r') [j; i; 1%Z] = get 0%Z (snd r) [i; j; 0%Z] /\
+        get 0%Z (snd r') [j; i; 0%Z] = get 0%Z (snd r) [i; j; 1%Z]).
+Proof. exact @InitEquiv.fteik2d_p2_transpose_explicit. Qed.
+
+(* and on the x-mirrored problem the x-mirror (source in its cell) *)
+Theorem C18_init_whole_mirror_x :
+  forall (nz nx : Z) (dx dz : R) (grad : bool) (iflag : Z) (slow tt tg tg' : arr R) (sg sg' : arr Z)
+         (vzero xsa : R) (xsi : Z) (zsa : R) (zsi : Z),
+       (iflag = 2%Z -> (0 <= zsi < nz - 1)%Z /\ (0 <= xsi < nx - 1)%Z /\ 0 <= xsa - IZR xsi <= 1) ->
+       (iflag <> 2%Z -> (0 <= ntrunc zsa < nz)%Z /\ (0 <= ntrunc xsa < nx)%Z /\ (exists k : Z, xsa = IZR k)) ->
+       wf slow ->
+       shape slow = [(nz - 1)%Z; (nx - 1)%Z] ->
+       InitEquiv.okT nz nx tt ->
+       (grad = true ->
+        InitEquiv.okG nz nx tg /\
+        InitEquiv.okS nz nx sg /\ tg' = InitEquiv.mirror_grad_x nz nx tg /\ sg' = InitSym.mirror_sgn_x nz nx sg) ->
+       let r := fteik2d_p2 dx dz grad iflag nx nz slow tt tg sg vzero xsa xsi zsa zsi in
+       let r' :=
+         fteik2d_p2 dx dz grad iflag nx nz (InitSym.mirror_x (nz - 1) (nx - 1) slow) (InitSym.mirror_x nz nx tt) tg'
+           sg' vzero (IZR (nx - 1) - xsa) (nx - 2 - xsi) zsa zsi in
+       (forall i j : Z,
+        (0 <= i < nz)%Z -> (0 <= j < nx)%Z -> get 0 (fst (fst r')) [i; j] = get 0 (fst (fst r)) [i; (nx - 1 - j)%Z]) /\
+       (grad = true ->
+        forall i j : Z,
+        (0 <= i < nz)%Z ->
+        (0 <= j < nx)%Z ->
+        get 0 (snd (fst r')) [i; j; 0%Z] = get 0 (snd (fst r)) [i; (nx - 1 - j)%Z; 0%Z] /\
+        get 0 (snd (fst r')) [i; j; 1%Z] = - get 0 (snd (fst r)) [i; (nx - 1 - j)%Z; 1%Z] /\
+        get 0%Z (snd r') [i; j; 0%Z] = get 0%Z (snd r) [i; (nx - 1 - j)%Z; 0%Z] /\
+        get 0%Z (snd r') [i; j; 1%Z] = (- get 0 (snd r) [i; nx - 1 - j; 1])%Z).
+Proof. exact @InitEquiv.fteik2d_p2_mirror_x_explicit. Qed.
+
+(* z-mirror *)
+Theorem C18_init_whole_mirror_z :
+  forall (nz nx : Z) (dx dz : R) (grad : bool) (iflag : Z) (slow tt tg tg' : arr R) (sg sg' : arr Z)
+         (vzero xsa : R) (xsi : Z) (zsa : R) (zsi : Z),
+       (iflag = 2%Z -> (0 <= zsi < nz - 1)%Z /\ (0 <= xsi < nx - 1)%Z /\ 0 <= zsa - IZR zsi <= 1) ->
+       (iflag <> 2%Z -> (0 <= ntrunc zsa < nz)%Z /\ (0 <= ntrunc xsa < nx)%Z /\ (exists k : Z, zsa = IZR k)) ->
+       InitEquiv.okT (nz - 1) (nx - 1) slow ->
+       InitEquiv.okT nz nx tt ->
+       (grad = true ->
+        InitEquiv.okG nz nx tg /\
+        InitEquiv.okS nz nx sg /\ tg' = InitEquiv.mirror_grad_z nz nx tg /\ sg' = InitSym.mirror_sgn_z nz nx sg) ->
+       let r := fteik2d_p2 dx dz grad iflag nx nz slow tt tg sg vzero xsa xsi zsa zsi in
+       let r' :=
+         fteik2d_p2 dx dz grad iflag nx nz (InitSym.mirror_z (nz - 1) (nx - 1) slow) (InitSym.mirror_z nz nx tt) tg'
+           sg' vzero xsa xsi (IZR (nz - 1) - zsa) (nz - 2 - zsi) in
+       (forall i j : Z,
+        (0 <= i < nz)%Z -> (0 <= j < nx)%Z -> get 0 (fst (fst r')) [i; j] = get 0 (fst (fst r)) [(nz - 1 - i)%Z; j]) /\
+       (grad = true ->
+        forall i j : Z,
+        (0 <= i < nz)%Z ->
+        (0 <= j < nx)%Z ->
+        get 0 (snd (fst r')) [i; j; 0%Z] = - get 0 (snd (fst r)) [(nz - 1 - i)%Z; j; 0%Z] /\
+        get 0 (snd (fst r')) [i; j; 1%Z] = get 0 (snd (fst r)) [(nz - 1 - i)%Z; j; 1%Z] /\
+        get 0%Z (snd r') [i; j; 0%Z] = (- get 0 (snd r) [nz - 1 - i; j; 0])%Z /\
+        get 0%Z (snd r') [i; j; 1%Z] = get 0%Z (snd r) [(nz - 1 - i)%Z; j; 1%Z]).
+Proof. exact @InitEquiv.fteik2d_p2_mirror_z_explicit. Qed.
+
 (* 3D: the guarded 8-point operator under Z<->X (neighbour times, inverse squared spacings and their pairwise products permuted alike) *)
 Theorem C18_eight_point_swap_zx :
   forall tv te tn tev ten tnv tnve vref dz2i dx2i dy2i dzxi dzyi dxyi dsum : R,
@@ -381,6 +483,10 @@ Print Assumptions C18_init_down_is_transpose_of_east.
 Print Assumptions C18_init_up_is_transpose_of_west.
 Print Assumptions C18_init_up_is_mirror_of_down.
 Print Assumptions C18_init_mirrored_offsets.
+Print Assumptions C18_init_phases_commute.
+Print Assumptions C18_init_whole_transpose.
+Print Assumptions C18_init_whole_mirror_x.
+Print Assumptions C18_init_whole_mirror_z.
 Print Assumptions C18_eight_point_swap_zx.
 Print Assumptions C18_eight_point_swap_xy.
 Print Assumptions C18_node_update_3d_relabel_zx.
